@@ -178,7 +178,13 @@ fn legal_ops(s: &RefState, cfg: &Cfg, snap: &Option<(RefState, usize)>) -> Vec<O
     }
     if s.tokens < cfg.max_tokens {
         ops.push(Op::Tok);
-        if s.last_was_token || (s.depth() == 0 && s.frames[0].children.iter().all(|c| matches!(c, Item::Tok { skip: true, .. }))) {
+        // skipped tokens follow a token in the same step; the only other place is the run at the very start of
+        // the input, which is consumed before anything else happens (init_skip)
+        let at_start = s.depth() == 0
+            && s.marks.is_empty()
+            && snap.is_none()
+            && s.frames[0].children.iter().all(|c| matches!(c, Item::Tok { skip: true, .. }));
+        if s.last_was_token || at_start {
             ops.push(Op::Skip);
         }
     }
@@ -186,13 +192,21 @@ fn legal_ops(s: &RefState, cfg: &Cfg, snap: &Option<(RefState, usize)>) -> Vec<O
         ops.push(Op::Mark);
     }
     if s.frames.len() < cfg.max_frames {
+        // inside a snapshot region a node may only be inserted behind the snapshot point (lelwel rejects
+        // creations in an attempt whose marker lies in front of the choice: E036)
+        let behind_snapshot = |d: usize, at: usize| -> bool {
+            match snap {
+                None => true,
+                Some((st, _)) => st.frames.len() <= d || at >= st.frames[d].children.len(),
+            }
+        };
         for (i, m) in s.marks.iter().enumerate() {
-            if m.0 == s.depth() {
+            if m.0 == s.depth() && behind_snapshot(m.0, m.1) {
                 ops.push(Op::Wrap(i));
             }
         }
-        if let Some((d, _)) = s.last_closed {
-            if d == s.depth() {
+        if let Some((d, at)) = s.last_closed {
+            if d == s.depth() && behind_snapshot(d, at) {
                 ops.push(Op::WrapClosed);
             }
         }
@@ -249,6 +263,8 @@ fn apply_ref(s: &mut RefState, op: &Op) {
             let d = s.depth();
             let at = s.frames[d].children.len();
             s.marks.push((d, at));
+            // a token and the skipped tokens behind it are consumed in one step: nothing comes in between
+            s.last_was_token = false;
         }
         Op::Wrap(_) | Op::WrapClosed => {
             let d = s.depth();
@@ -266,7 +282,9 @@ fn apply_ref(s: &mut RefState, op: &Op) {
             s.last_closed = None;
             s.last_was_token = false;
         }
-        Op::Snap | Op::Restore => {}
+        Op::Snap | Op::Restore => {
+            s.last_was_token = false;
+        }
         Op::Finish => {
             s.finished = true;
         }
@@ -274,6 +292,8 @@ fn apply_ref(s: &mut RefState, op: &Op) {
 }
 
 /// replays a history on the real builder and the reference; returns the reference state, or a violation
+fn continue_compare(_s: &RefState) {}
+
 fn replay(b: &mut dyn Builder, hist: &[Op], err: u16, cfg: &Cfg) -> Result<(RefState, Option<(RefState, usize)>), String> {
     b.reset(cfg.max_tokens);
     let mut s = RefState::new();
@@ -311,7 +331,9 @@ fn replay(b: &mut dyn Builder, hist: &[Op], err: u16, cfg: &Cfg) -> Result<(RefS
                 real.frame_marks.push(real.b.open_before(flat));
             }
             Op::Snap => {
-                snap = Some((s.clone(), step));
+                let mut st = s.clone();
+                apply_ref(&mut st, op);
+                snap = Some((st, step));
                 real_snap = Some((real.b.snapshot(), real.frame_marks.clone()));
             }
             Op::Restore => {
@@ -320,6 +342,7 @@ fn replay(b: &mut dyn Builder, hist: &[Op], err: u16, cfg: &Cfg) -> Result<(RefS
                 real.b.truncate(rs);
                 real.frame_marks = fm;
                 s = st;
+                continue_compare(&s);
             }
             Op::Finish => {
                 let m = real.frame_marks.pop().unwrap();
@@ -418,7 +441,10 @@ pub fn explore(b: &mut dyn Builder, err: u16, depth: usize) -> HistoryStats {
                 let mut s2 = s.clone();
                 let mut snap2 = snap.as_ref().map(|x| x.0.clone());
                 match op {
-                    Op::Snap => snap2 = Some(s.clone()),
+                    Op::Snap => {
+                        apply_ref(&mut s2, &op);
+                        snap2 = Some(s2.clone());
+                    }
                     Op::Restore => {
                         s2 = snap2.take().unwrap();
                     }
